@@ -15,7 +15,7 @@ import (
 
 // Inputs of the decode operations: fixed byte strings (produced once by this library and pinned here as
 // text so that building them does not warm any cache).
-type Inputs struct{ BinReq12, XmlResp13, JsonCr14 []byte }
+type Inputs struct{ BinReq12, XmlResp13, JsonCr14, BinCustA, XmlCustB, JsonCustC []byte }
 
 var In *Inputs
 
@@ -25,6 +25,9 @@ func BuildInputs() *Inputs {
 		BinReq12:  ttlv.MarshalTTLV(codecReq(kmip.V1_2, "q12")),
 		XmlResp13: ttlv.MarshalXML(codecResp(kmip.V1_3, "r13")),
 		JsonCr14:  ttlv.MarshalJSON(codecCreate(kmip.V1_4)),
+		BinCustA:  ttlv.MarshalTTLV(codecCustom("a")),
+		XmlCustB:  ttlv.MarshalXML(codecCustom("b")),
+		JsonCustC: ttlv.MarshalJSON(codecCustom("c")),
 	}
 }
 
@@ -68,6 +71,25 @@ func codecCreate(v kmip.ProtocolVersion) *kmip.RequestMessage {
 					BlockCipherMode: kmip.BlockCipherModeGCM, TagLength: 16, SaltLength: func() *int32 { x := int32(8); return &x }()}},
 			}},
 		}}},
+	}
+}
+
+// codecCustom: an Add Attribute request and a Create request whose attributes are custom (x-) ones and one with a name the
+// library has no type for; the values differ per who (the generic holder of such values must not be shared between decodes).
+func codecCustom(who string) *kmip.RequestMessage {
+	ts := time.Unix(1700000004, 0)
+	return &kmip.RequestMessage{
+		Header: kmip.RequestHeader{ProtocolVersion: kmip.V1_4, TimeStamp: &ts, BatchCount: 2},
+		BatchItem: []kmip.RequestBatchItem{
+			{Operation: kmip.OperationAddAttribute, RequestPayload: &payloads.AddAttributeRequestPayload{UniqueIdentifier: "id-" + who,
+				Attribute: kmip.Attribute{AttributeName: "x-owner", AttributeValue: "owner-of-" + who}}},
+			{Operation: kmip.OperationCreate, RequestPayload: &payloads.CreateRequestPayload{ObjectType: kmip.ObjectTypeSymmetricKey,
+				TemplateAttribute: kmip.TemplateAttribute{Attribute: []kmip.Attribute{
+					{AttributeName: "x-label", AttributeValue: "label-" + who},
+					{AttributeName: "y-count", AttributeValue: int32(len(who) + int(who[0]))},
+					{AttributeName: "Vendor Thing", AttributeValue: ttlv.Value{Tag: kmip.TagAttributeValue, Value: ttlv.Struct{{Tag: 0x540001, Value: "thing-" + who}}}},
+				}}}},
+		},
 	}
 }
 
@@ -131,6 +153,10 @@ var Ops = map[string]func() string{
 	"enc-eckey-a-json": func() string {
 		return string(ttlv.MarshalJSON(codecKey(kmip.V1_4, "80aaaaaaaaaaaaaaaaaaaaaaaaaaaaaaaaaaaaaaaaaaaaaaaaaaaaaaaaaaaaaa01")))
 	},
+	// custom and untyped attributes: decoded into generic values, which two decodes at once must not share
+	"dec-custattr-a-ttlv": func() string { return decReq(In.BinCustA, ttlv.UnmarshalTTLV) },
+	"dec-custattr-b-xml":  func() string { return decReq(In.XmlCustB, ttlv.UnmarshalXML) },
+	"dec-custattr-c-json": func() string { return decReq(In.JsonCustC, ttlv.UnmarshalJSON) },
 	"reuse-10-then-14": func() string {
 		enc := ttlv.NewTTLVEncoder()
 		enc.Any(codecReq(kmip.V1_0, "a"))
